@@ -368,10 +368,22 @@ func c15Insts(full bool) []Inst {
 	}
 	for _, pos := range poss {
 		for _, ev := range gwSNEvents(full) {
-			out = append(out, inst("gateway", "VH_C15_isolation", ev.kind, ev.arg, 0, pos))
+			out = append(out, inst("gateway", "VH_C15_isolation", ev.kind, ev.arg, 0, pos, 0))
 		}
 		for _, m := range []int64{2, 3, 4, 5, 6, 7, 9, 11, 13} {
-			out = append(out, inst("gateway", "VH_C15_isolation", -1, 0, m, pos))
+			out = append(out, inst("gateway", "VH_C15_isolation", -1, 0, m, pos, 0))
+		}
+	}
+	// B connecting with a will (pending CONNECT in memory) while A runs a connect exchange of its own
+	wposs := []int64{2}
+	if full {
+		wposs = []int64{1, 2, 3, 4}
+	}
+	for _, pos := range wposs {
+		for _, ev := range gwSNEvents(full) {
+			if ev.kind == 0x03 || ev.kind == 0x07 || ev.kind == 0x09 || ev.kind == 0x04 {
+				out = append(out, inst("gateway", "VH_C15_isolation", ev.kind, ev.arg, 0, pos, 3))
+			}
 		}
 	}
 	out = append(out, inst("gateway", "VH_C15_accept", 2))
